@@ -109,6 +109,10 @@ Proof.
   now rewrite E.
 Qed.
 
+Lemma description_perm files files' :
+  Permutation files files' -> NoDup (map f_name files) -> description files = description files'.
+Proof. intros P Hnd. unfold description, package_doc. now rewrite (sort_canonical f_name files files' P Hnd). Qed.
+
 Lemma deterministic env a b :
   same_content_up_to_order a b -> template_data env true a = template_data env true b.
 Proof.
@@ -128,7 +132,7 @@ Proof.
   { rewrite E2. apply sort_canonical.
     - rewrite (Raa _), (Rab _). reflexivity.
     - eapply perm_nodup_map; [symmetry; apply Raa|apply set_aliases_nd]. }
-  rewrite E1, E3, Ed. destruct (in_default b); [rewrite G|]; reflexivity.
+  rewrite (description_perm _ _ Pf Nf), E1, E3, Ed. destruct (in_default b); [rewrite G|]; reflexivity.
 Qed.
 
 Lemma association_stable env a b t t' :
@@ -303,14 +307,14 @@ Definition env2 (p : string) : option (string * list pfunc) :=
   else None.
 
 Definition two_named (rng : list (string * string) -> list (string * string)) : inputs :=
-  {| in_files := [{| f_name := "magefile.go";
+  {| in_files := [{| f_name := "magefile.go"; f_doc := None;
                      f_specs := [{| sp_path := "x/a/tools"; sp_alias := "a" |}; {| sp_path := "x/b/tools"; sp_alias := "b" |}] |}];
      in_funcs := [{| pf_recv := ""; pf_name := "All"; pf_body := "" |}];
      in_default := Some (ASel "tools" "Build");
      in_aliases := [("b", ASel "tools" "Build"); ("l", ASel "tools" "Lint")];
      in_range_names := rng; in_range_aliases := fun l => l |}.
 
-Definition root_file (n p : string) : file := {| f_name := n; f_specs := [{| sp_path := p; sp_alias := "" |}] |}.
+Definition root_file (n p : string) : file := {| f_name := n; f_doc := Some (String.append n " says hello"); f_specs := [{| sp_path := p; sp_alias := "" |}] |}.
 Definition two_roots (files : list file) : inputs :=
   {| in_files := files; in_funcs := []; in_default := None; in_aliases := [];
      in_range_names := fun l => l; in_range_aliases := fun l => l |}.
@@ -379,7 +383,7 @@ Qed.
 
 (* one package imported under two aliases (three specs, two of them identical, over three files in
    any order): two imports, named in the order (path, alias) *)
-Definition named_file (n p a : string) : file := {| f_name := n; f_specs := [{| sp_path := p; sp_alias := a |}] |}.
+Definition named_file (n p a : string) : file := {| f_name := n; f_doc := None; f_specs := [{| sp_path := p; sp_alias := a |}] |}.
 Definition two_aliases (files : list file) (rng : list (string * string) -> list (string * string)) : inputs :=
   {| in_files := files; in_funcs := []; in_default := None; in_aliases := [];
      in_range_names := rng; in_range_aliases := fun l => l |}.
@@ -396,4 +400,24 @@ Lemma two_aliases_example :
 Proof.
   simpl. split; [vm_compute; reflexivity|].
   eexists. split; [vm_compute; reflexivity|]. vm_compute. split; reflexivity.
+Qed.
+
+(* package comments in three of four files (one of them empty), any file order: go/doc's join in
+   sorted file-name order, on one line *)
+Definition doc_file (n : string) (d : option string) : file := {| f_name := n; f_doc := d; f_specs := [] |}.
+Lemma description_example :
+  let fa := doc_file "a.go" (Some (String.append "Targets that build." nl)) in
+  let fb := doc_file "B.go" (Some (String.append "Deploys" (String.append nl (String.append "to staging." nl)))) in
+  let fc := doc_file "c.go" None in
+  let fd := doc_file "d.go" (Some "") in
+  same_content_up_to_order (two_roots [fa; fb; fc; fd]) (two_roots [fc; fd; fa; fb]) /\
+  description [fa; fb; fc; fd] = "Deploys to staging.  Targets that build." /\
+  description [fc; fd; fa; fb] = "Deploys to staging.  Targets that build." /\
+  option_map td_desc (template_data env2 true (two_roots [fc; fd; fa; fb])) = Some "Deploys to staging.  Targets that build.".
+Proof.
+  simpl. split; [|vm_compute; auto].
+  unfold same_content_up_to_order; simpl. repeat split; auto using range_id.
+  - apply Permutation_sym. apply (Permutation_app_comm [_; _] [_; _]).
+  - repeat (constructor; [simpl; intuition discriminate|]). constructor.
+  - constructor.
 Qed.
